@@ -396,6 +396,44 @@ package app
 //@   ghostset after Before: imBefore = result
 //@   top-ensures !r ==> imParsed && !imBefore
 
+// C12 (the Abort family): every AbortWith... helper stops the chain - it calls Abort on its own context, whatever
+// the status or the response looks like - and sets the status it was given.
+//@ ghost var abDone bool
+//@ func RequestContext.AbortWithStatus(ctx, code)
+//@   props C12
+//@   abstract
+//@   noinline
+//@   modifies abDone
+//@   ghostset-at-entry abDone = false
+//@   assert before RequestContext.SetStatusCode: arg0 == ctx && arg1 == code
+//@   ghostset after RequestContext.Abort: abDone = (arg0 == ctx)
+//@   top-ensures abDone
+//@ func RequestContext.AbortWithMsg(ctx, msg, statusCode)
+//@   props C12
+//@   abstract
+//@   noinline
+//@   modifies abDone
+//@   ghostset-at-entry abDone = false
+//@   assert before RequestContext.SetStatusCode: arg0 == ctx && arg1 == statusCode
+//@   ghostset after RequestContext.Abort: abDone = (arg0 == ctx)
+//@   top-ensures abDone
+//@ func RequestContext.AbortWithStatusJSON(ctx, code, jsonObj)
+//@   props C12
+//@   abstract
+//@   noinline
+//@   modifies abDone
+//@   ghostset-at-entry abDone = false
+//@   ghostset after RequestContext.Abort: abDone = (arg0 == ctx)
+//@   top-ensures abDone
+//@ func RequestContext.AbortWithError(ctx, code, err) r
+//@   props C12
+//@   abstract
+//@   noinline
+//@   modifies abDone
+//@   ghostset-at-entry abDone = false
+//@   assert before RequestContext.AbortWithStatus: arg0 == ctx && arg1 == code
+//@   top-ensures abDone
+
 // C14: the stream handed out to handlers - and to the release step of the server loop - is the request's own
 // body stream object, not a wrapper (the release step only drains a stream it recognises).
 //@ func RequestContext.RequestBodyStream(ctx) r
